@@ -51,16 +51,17 @@ Definition filter_match (s : bytes) : option (bytes * bytes) :=
   | _, c :: r => if beq c x28 then match rev r with d :: m => if beq d x29 then Some (w, rev m) else None | [] => None end
                  else None
   end.
-(* parseArgs: split on commas outside quotes; the quote characters themselves are dropped *)
+(* parseArgs: split on commas outside quotes; the quote characters stay on the argument (resolveArgument tells a
+   string literal by them) *)
 Fixpoint parse_args_go (s : bytes) (q : option byte) (cur : bytes) : list bytes :=
   match s with
   | [] => match cur with [] => [] | _ => [trim (rev cur)] end
   | c :: r =>
       match q with
-      | None => if beq c x22 || beq c x27 then parse_args_go r (Some c) cur
+      | None => if beq c x22 || beq c x27 then parse_args_go r (Some c) (c :: cur)
                 else if beq c x2c then (match cur with [] => [] | _ => [trim (rev cur)] end) ++ parse_args_go r None []
                 else parse_args_go r None (c :: cur)
-      | Some qc => if beq c qc then parse_args_go r None cur else parse_args_go r q (c :: cur)
+      | Some qc => if beq c qc then parse_args_go r None (c :: cur) else parse_args_go r q (c :: cur)
       end
   end.
 Definition parse_args (s : bytes) : list bytes := parse_args_go (trim s) None [].
